@@ -22,6 +22,10 @@ theorem isNoneV_refines (c a : V) (h : refines c a = true) : isNoneV c = isNoneV
 theorem isInst_refines (c a : V) (t : TestTy) (h : refines c a = true) : isInst c t = isInst a t := by
   cases a <;> cases c <;> simp_all [refines] <;> (cases t <;> try rfl) <;> (rename_i b; cases b <;> rfl)
 
+theorem refines_narrow (c a : V) (b : Bool) (h : refines c a = true) (ht : truth c = b) :
+    refines c (narrow b a) = true := by
+  cases a <;> cases c <;> simp_all [refines, narrow, truth]
+
 theorem decSem_sound : DecSound decSem := by
   intro a b hd c hr
   cases a <;> simp [decSem] at hd <;> (subst hd; exact truth_refines _ _ hr (by simp))
@@ -235,13 +239,15 @@ theorem evalA_sim (cenv aenv : Env) (henv : refinesEnv cenv aenv = true) :
           rw [ht] at this; subst this; simpa using hm
       · simp only [ht, Bool.false_eq_true, if_false, Option.some.injEq] at h
         subst h
-        refine ⟨ava, ⟨ava, hma, ?_⟩, hra⟩
         cases hdec : dec ava with
-        | none => simp
+        | none =>
+          exact ⟨narrow false ava, ⟨ava, hma, by simp [hdec]⟩,
+            refines_narrow va ava false hra (by simpa using ht)⟩
         | some bb =>
           have := hd ava bb hdec va hra
           simp only [Bool.not_eq_true] at ht
-          rw [ht] at this; subst this; simp
+          rw [ht] at this; subst this
+          exact ⟨ava, ⟨ava, hma, by simp [hdec]⟩, hra⟩
     · cases h
   | .or a b, c, h => by
     simp only [evalC] at h
@@ -252,12 +258,13 @@ theorem evalA_sim (cenv aenv : Env) (henv : refinesEnv cenv aenv = true) :
       by_cases ht : truth va = true
       · simp only [ht, if_true, Option.some.injEq] at h
         subst h
-        refine ⟨ava, ⟨ava, hma, ?_⟩, hra⟩
         cases hdec : dec ava with
-        | none => simp
+        | none =>
+          exact ⟨narrow true ava, ⟨ava, hma, by simp [hdec]⟩, refines_narrow va ava true hra ht⟩
         | some bb =>
           have := hd ava bb hdec va hra
-          rw [ht] at this; subst this; simp
+          rw [ht] at this; subst this
+          exact ⟨ava, ⟨ava, hma, by simp [hdec]⟩, hra⟩
       · simp only [ht] at h
         obtain ⟨r, hm, hr⟩ := evalA_sim cenv aenv henv b c h
         refine ⟨r, ⟨ava, hma, ?_⟩, hr⟩
